@@ -172,47 +172,60 @@ def truncateLoop (E : Env) (newLen : Nat) (newLenDesc : Desc) (newWritable throw
       if throw then M.throw .type else pure (some false)
     else truncateLoop E newLen newLenDesc newWritable throw cnt
 
-/-- §15.4.5.1 [[DefineOwnProperty]] of an Array object -/
-def arrayDefineOwn (E : Env) (k : Key) (d : Desc) (throw : Bool) : M Obj Bool := fun o =>
+/-- §15.4.5.1 steps 3.l–3.n (`cnt` = oldLen − newLen) -/
+def truncateTail (E : Env) (newLen : Nat) (newLenDesc : Desc) (newWritable throw : Bool) (cnt : Nat) : M Obj Bool := do
+  match ← truncateLoop E newLen newLenDesc newWritable throw cnt with                 -- l
+  | some r => pure r
+  | none =>
+    if !newWritable then                                                              -- m
+      let _ ← defineOwnDefault E .length { w := some false } false
+      pure true
+    else pure true                                                                    -- n
+
+/-- §15.4.5.1 steps 3.b, 3.e–3.n: P is "length" and Desc.[[Value]] converts to the uint32 newLen -/
+def arraySetLen (E : Env) (d : Desc) (throw : Bool) (newLen : Nat) : M Obj Bool := fun o =>
   let rej : Res Obj Bool := if throw then .err .type o else .ok false o
   let oldLenDesc := (lookup .length o.props).getD ⟨.int 0, false, false, false⟩       -- 1
   let oldLen := oldLen o                                                              -- 2
+  let newLenDesc : Desc := { d with v := some (.int newLen) }                         -- b, e
+  if newLen ≥ oldLen then defineOwnDefault E .length newLenDesc throw o               -- f
+  else if oldLenDesc.w = false then rej                                               -- g
+  else
+    let newWritable : Bool := !(newLenDesc.w = some false)                            -- h, i
+    let newLenDesc : Desc := if newWritable then newLenDesc else { newLenDesc with w := some true }
+    (do
+      let succeeded ← defineOwnDefault E .length newLenDesc throw                     -- j
+      if !succeeded then pure false else                                              -- k
+      truncateTail E newLen newLenDesc newWritable throw (oldLen - newLen)) o         -- l–n
+
+/-- §15.4.5.1 step 4: P is the array index `index` -/
+def arrayDefineIdx (E : Env) (k : Key) (d : Desc) (throw : Bool) (index : Nat) : M Obj Bool := fun o =>
+  let rej : Res Obj Bool := if throw then .err .type o else .ok false o
+  let oldLenDesc := (lookup .length o.props).getD ⟨.int 0, false, false, false⟩       -- 1
+  let oldLen := oldLen o                                                              -- 2
+  if index ≥ oldLen ∧ oldLenDesc.w = false then rej                                   -- b
+  else
+    (do
+      let succeeded ← defineOwnDefault E k d false                                    -- c
+      if !succeeded then (if throw then M.throw .type else pure false) else           -- d
+      if index ≥ oldLen then                                                          -- e
+        let _ ← defineOwnDefault E .length
+                  ⟨some (.int (index + 1 : Nat)), some oldLenDesc.w, some oldLenDesc.e, some oldLenDesc.c⟩ false
+        pure true
+      else pure true) o                                                               -- f
+
+/-- §15.4.5.1 [[DefineOwnProperty]] of an Array object -/
+def arrayDefineOwn (E : Env) (k : Key) (d : Desc) (throw : Bool) : M Obj Bool := fun o =>
   if k = .length then                                                                 -- 3
     match d.v with
     | none => defineOwnDefault E .length d throw o                                    -- a
     | some v =>
       match lengthOf E v with                                                         -- c, d
       | none => .err .range o
-      | some newLen =>
-        let newLenDesc : Desc := { d with v := some (.int newLen) }                   -- b, e
-        if newLen ≥ oldLen then defineOwnDefault E .length newLenDesc throw o         -- f
-        else if oldLenDesc.w = false then rej                                         -- g
-        else
-          let newWritable : Bool := !(newLenDesc.w = some false)                      -- h, i
-          let newLenDesc : Desc := if newWritable then newLenDesc else { newLenDesc with w := some true }
-          (do
-            let succeeded ← defineOwnDefault E .length newLenDesc throw               -- j
-            if !succeeded then pure false else                                        -- k
-            match ← truncateLoop E newLen newLenDesc newWritable throw (oldLen - newLen) with   -- l
-            | some r => pure r
-            | none =>
-              if !newWritable then                                                    -- m
-                let _ ← defineOwnDefault E .length { w := some false } false
-                pure true
-              else pure true) o                                                       -- n
+      | some newLen => arraySetLen E d throw newLen o
   else
     match arrayIndex? k.toBytes with
-    | some index =>                                                                   -- 4
-      if index ≥ oldLen ∧ oldLenDesc.w = false then rej                               -- b
-      else
-        (do
-          let succeeded ← defineOwnDefault E k d false                                -- c
-          if !succeeded then (if throw then M.throw .type else pure false) else       -- d
-          if index ≥ oldLen then                                                      -- e
-            let _ ← defineOwnDefault E .length
-                      ⟨some (.int (index + 1 : Nat)), some oldLenDesc.w, some oldLenDesc.e, some oldLenDesc.c⟩ false
-            pure true
-          else pure true) o                                                           -- f
+    | some index => arrayDefineIdx E k d throw index o                                -- 4
     | none => defineOwnDefault E k d throw o                                          -- 5
 
 def defineOwn (E : Env) (k : Key) (d : Desc) (throw : Bool) : M Obj Bool := fun o =>
